@@ -8,7 +8,9 @@ from ..runner import Leg, Res, libcall
 PROPERTY = 'C10'
 NEED_C = True
 RULE = ('Pairs (equal and unequal lengths, ndim 1..2) x base settings x a comparable variation of each option '
-        '(window w -> w+k, psi componentwise larger, penalty larger, max_step larger), engines Python and C. Relations '
+        '(window w -> w+k, psi componentwise larger, penalty larger, max_step larger), engines Python and C: distance, '
+        'distance_fast and the distance returned by warping_paths / warping_paths_fast (full, compact; the C ones on '
+        'psi-free cases only). Relations '
         'between calls, independent of any reference: d(s,s)=0, d>=0, d(s1,s2;psi=(a,b,c,d)) = d(s2,s1;psi=(c,d,a,b)), '
         'monotonicity in window/psi/max_step/penalty (inf ordered last, slack 1e-9), window=1 on equal lengths = ED, '
         'square distance matrix symmetric with zero diagonal and entry (a,b) = d(s[b],s[a]). Non-trivial: lengths >= 2 '
@@ -56,7 +58,19 @@ def _engines(case):
                 return dtw.distance_fast(conv(s1, eng), conv(s2, eng), use_ndim=(nd > 1), **kw)
             return dtw.distance(conv(s1, eng), conv(s2, eng), use_ndim=(nd > 1), use_c=False, **kw)
         return f
-    return [('py', mk('py')), ('c', mk('c'))]
+
+    def mkw(eng, compact):
+        # the distance returned by the accumulated-cost routines is the same quantity, computed by other kernels
+        def f(s1, s2, **kw):
+            if eng == 'c':
+                return dtw.warping_paths_fast(conv(s1, eng), conv(s2, eng), use_ndim=(nd > 1), compact=compact, **kw)[0]
+            return dtw.warping_paths(conv(s1, eng), conv(s2, eng), use_ndim=(nd > 1), use_c=False, **kw)[0]
+        return f
+    out = [('py', mk('py')), ('c', mk('c')), ('py-wps', mkw('py', False))]
+    # C warping-paths kernels: psi-free cases only (their psi handling beyond the band is the open finding F04a of C04)
+    if not any(gen.psi4(case['psi'])):
+        out += [('c-wps', mkw('c', False)), ('c-wps-compact', mkw('c', True))]
+    return out
 
 
 def run(case):
@@ -89,6 +103,8 @@ def run(case):
         for s, lab in ((s1, 's1'), (s2, 's2')):
             n = len(s)
             q = tuple(min(x, n) for x in p)
+            if eng.startswith('c-wps'):
+                q = (0, 0, 0, 0)
             while ref.degenerate_psi(n, n, q) and any(q):
                 q = tuple(max(0, x - 1) for x in q)
             v = call('identity', s, s, psi=q)
@@ -107,7 +123,7 @@ def run(case):
                              % (case['window'], case['window'] + case['dw'], d, v))
                 strict = strict or v != d
         # monotone in psi
-        if list(case['psi_grown']) != list(p):
+        if list(case['psi_grown']) != list(p) and not eng.startswith('c-wps'):
             v = call('psi', s1, s2, psi=tuple(case['psi_grown']))
             if v is not None:
                 if not ref.leq(v, d):
